@@ -410,22 +410,26 @@ def _reduces_over_individuals(node) -> list:
         is_tensor_call = isinstance(c.func, ast.Attribute) or U(c.func).startswith(("torch.", "np."))
         if not is_tensor_call:
             continue
-        if dim in ("0", "LVL_IND", "(0,)", "[0]") or (dim is None and name in ("sum", "mean", "prod", "max", "min", "std", "var", "median", "norm") and not c.args[1:] and isinstance(c.func, ast.Attribute) is False):
+        full_function = dim is None and name in ("sum", "mean", "prod", "max", "min", "std", "var", "median", "norm") and not c.args[1:] and isinstance(c.func, ast.Attribute) is False
+        # method form without any argument: `x.max()`, `x.sum()` ... reduce over every axis, the individual one included
+        full_method = dim is None and isinstance(c.func, ast.Attribute) and not c.args and not c.keywords and name in ("sum", "mean", "prod", "max", "min", "amax", "amin", "std", "var", "median", "norm") \
+            and U(c.func.value) not in ("torch", "np", "math")
+        if dim in ("0", "LVL_IND", "(0,)", "[0]") or full_function or full_method:
             out.append(c)
     return out
 
 
-def r5b_no_cross_individual_weights(ctx):
+def r5b_no_cross_individual_weights(ctx, rid="C03.R5b"):
     """Whatever the individual sampler multiplies its per-individual terms with (cluster responsibilities of the mixture model ...) must be
     per-individual too: a quantity reduced over the individual axis makes D_i depend on the other individuals' values."""
-    ctx.rule("C03.R5b", "the individual sampler uses no quantity reduced over the individual axis (directly or through a helper fed with the state)", 1)
-    sfs = [sf for sf in sample_functions(ctx.ix, "C03.R5b") if sf.kind == "individual"]
+    ctx.rule(rid, "the individual sampler uses no quantity reduced over the individual axis (directly or through a helper fed with the state)", 1)
+    sfs = [sf for sf in sample_functions(ctx.ix, rid) if sf.kind == "individual"]
     if not sfs:
-        raise AnalysisError("C03.R5b", "individual sampler not found")
+        raise AnalysisError(rid, "individual sampler not found")
     sf = sfs[0]
     f = sf.f
     for c in _reduces_over_individuals(f.node):
-        ctx.violation("C03.R5b", f, c, f"`{U(c)[:70]}` reduces over the individual axis inside the individual sampler: every individual's decision then depends on the others")
+        ctx.violation(rid, f, c, f"`{U(c)[:70]}` reduces over the individual axis inside the individual sampler: every individual's decision then depends on the others")
     helpers = []
     for c in ast.walk(f.node):
         if isinstance(c, ast.Call) and any(isinstance(a, ast.Name) and a.id == sf.state for a in list(c.args) + [k.value for k in c.keywords]) \
@@ -435,13 +439,13 @@ def r5b_no_cross_individual_weights(ctx):
             helpers.append((c, nm, cands))
     for c, nm, cands in helpers:
         if not cands:
-            ctx.unknown("C03.R5b", f, c, f"`{U(c)[:60]}` hands the state to `{nm}`, which is not a function of the repository")
+            ctx.unknown(rid, f, c, f"`{U(c)[:60]}` hands the state to `{nm}`, which is not a function of the repository")
             continue
         red = [r for g in cands for r in _reduces_over_individuals(g.node)]
-        ctx.check(not red, "C03.R5b", f, c, f"helper `{nm}` keeps the individual axis",
+        ctx.check(not red, rid, f, c, f"helper `{nm}` keeps the individual axis",
                   f"`{U(c)[:60]}`: `{nm}` computes `{U(red[0])[:60] if red else ''}`, a quantity reduced over the individuals; used as a weight of the per-individual terms it makes each "
                   "individual's acceptance depend on the other individuals' current and proposed values")
-    ctx.ok("C03.R5b", f, f.node, f"{len(helpers)} helper call(s) fed with the state; no reduction over the individual axis in the sampler", construct="def sample (individual)")
+    ctx.ok(rid, f, f.node, f"{len(helpers)} helper call(s) fed with the state; no reduction over the individual axis in the sampler", construct="def sample (individual)")
 
 
 def rules(ctx):
